@@ -4,7 +4,11 @@
  * every later call), or - when the solver picks a fault at that call - fails with -1.
  * Oracle: no fault => the result is the whole source (length S, same bytes); fault => io_error. Never a short result. */
 #include "harness.h"
-#include "env_msg.h"
+#ifndef VERIF_NATIVE_REAL
+/* generated C only (spec: unit 'fsbig' cuts this constructor): builds the what() text "io error on fd N: <errno text>"
+ * only; with it every byte-copy loop needs ~20 more unwindings over 16 KiB blocks. The throw and its type are encoded. */
+void X__ZN5phosg8io_errorC1Ei(uint8_t* self, uint32_t fd) { (void)self; (void)fd; }
+#endif
 int64_t w_read_all_fd(uint32_t fd, uint8_t* out, uint64_t cap);
 
 #define W_IO_ERROR (-20)
@@ -18,8 +22,9 @@ static uint8_t fault[MAXCALLS + 1];   /* call j fails */
 
 uint64_t STUB(read)(uint32_t fd, uint8_t* buf, uint64_t n) {
   ASSERT(fd == FD, "read on the given descriptor");
-  ASSERT(calls < MAXCALLS, "BOUND: number of read() calls");
-  int j = calls < MAXCALLS ? calls : MAXCALLS;
+  ASSERT(calls < MAXCALLS, "BOUND: number of read() calls"); /* reported as a failed bound, never silently cut */
+  ASSUME(calls < MAXCALLS);
+  int j = calls;
   calls++;
   if (fault[j]) { faulted = 1; return (uint64_t)-1; }
   uint64_t rem = S - pos;
